@@ -129,7 +129,8 @@ impl SignedPacket {
 
     /// Parse a signed packet without verifying the signature.
     ///
-    /// Still validates minimum length and DNS parsing.
+    /// Still validates minimum length, that the public key bytes are a valid key, and DNS
+    /// parsing.
     pub fn from_bytes_unchecked(bytes: &[u8]) -> Result<SignedPacket, SignedPacketVerifyError> {
         if bytes.len() < HEADER_SIZE {
             return Err(e!(SignedPacketVerifyError::TooShort { len: bytes.len() }));
@@ -137,6 +138,10 @@ impl SignedPacket {
         if bytes.len() > MAX_SIGNED_PACKET_SIZE {
             return Err(e!(SignedPacketVerifyError::TooLarge { len: bytes.len() }));
         }
+        // `public_key()` (and with it `Display`, `Debug`, `txt_records`) relies on the key
+        // bytes being a valid key.
+        PublicKey::try_from(&bytes[..32])
+            .map_err(|e| e!(SignedPacketVerifyError::InvalidKey, e))?;
         Packet::parse(&bytes[104..])
             .map_err(|e| e!(SignedPacketVerifyError::DnsError, anyerr!(e)))?;
         Ok(SignedPacket {
